@@ -75,6 +75,21 @@ class Ctx:
       self.unknown = True
     return r
 
+  def prove(self, claim, timeout_ms=60000):
+    """Discharge a claim under base+pc with a fresh NON-incremental solver (lets z3 pick nlsat for pure NRA goals).
+    Returns (result, model) with result in unsat (proved) / sat (counterexample) / unknown."""
+    t = time.time()
+    s = z3.Solver()
+    s.set('timeout', timeout_ms)
+    s.add(*self.base)
+    s.add(*self.pc)
+    s.add(z3.Not(claim))
+    r = s.check()
+    self.stats['queries'] += 1
+    self.stats[str(r)] = self.stats.get(str(r), 0) + 1
+    self.stats['time'] += time.time() - t
+    return r, (s.model() if r == z3.sat else None)
+
   def begin_path(self, prefix):
     self.solver.reset()
     self.solver.set('timeout', 20000)
@@ -82,6 +97,8 @@ class Ctx:
     self.nvars = 0
     self.vars = []
     self.base = []
+    self._sqrt_cache = {}
+    self.prefer_int = []
 
   def assume(self, cond):
     cond = _b(cond)
@@ -138,6 +155,13 @@ class Ctx:
     self.vars.append((name, v))
     self.assume(z3.And(v >= lo, v <= hi))
     return SV(v, isint=True, dom=(lo, hi))
+
+  def nat(self, name):
+    """Unbounded non-negative integer (e.g. a count)."""
+    v = z3.Int(name)
+    self.vars.append((name, v))
+    self.assume(v >= 0)
+    return SV(v, isint=True)
 
   def bool(self, name):
     v = z3.Bool(name)
@@ -213,6 +237,8 @@ class SBool:
   def __le__(self, o): return self.sv() <= o
   def __neg__(self): return -self.sv()
   def __float__(self): return float(int(self))
+  def astype(self, t):
+    return self.sv() if t not in (bool, _np.bool_, 'bool') else self
   def __repr__(self): return f'SBool({z3.simplify(self.t)})'
 
 
@@ -273,6 +299,8 @@ class SV:
     return z3.Or(a, b)
 
   def _bin(self, o, f, isint=False):
+    if isinstance(o, _np.ndarray) and o.ndim > 0:
+      return _map(lambda e: self._bin(e, f, isint), o)
     o = SV.lift(o)
     if o is NotImplemented:
       return NotImplemented
@@ -282,6 +310,8 @@ class SV:
   __radd__ = __add__
   def __sub__(self, o): return self._bin(o, lambda a, b: a - b, True)
   def __rsub__(self, o):
+    if isinstance(o, _np.ndarray) and o.ndim > 0:
+      return _map(lambda e: e - self, o)
     o = SV.lift(o)
     return NotImplemented if o is NotImplemented else o - self
   def __mul__(self, o): return self._bin(o, lambda a, b: a * b, True)
@@ -303,6 +333,8 @@ class SV:
     raise Unsupported(f'power {k}')
 
   def __truediv__(self, o):
+    if isinstance(o, _np.ndarray) and o.ndim > 0:
+      return _map(lambda e: self / e, o)
     o = SV.lift(o)
     if o is NotImplemented:
       return NotImplemented
@@ -315,6 +347,8 @@ class SV:
     return SV(self.val / z3.ToReal(o.val) if o.val.sort() == z3.IntSort() else self.val / o.val, self._nan_or(o))
 
   def __rtruediv__(self, o):
+    if isinstance(o, _np.ndarray) and o.ndim > 0:
+      return _map(lambda e: SV.lift(e) / self, o)
     o = SV.lift(o)
     return NotImplemented if o is NotImplemented else o / self
 
@@ -323,6 +357,8 @@ class SV:
 
   # comparisons: anything compared with NaN is False (!= is True)
   def _cmp(self, o, f, ne=False):
+    if isinstance(o, _np.ndarray) and o.ndim > 0:
+      return _map(lambda e: self._cmp(e, f, ne), o)
     o = SV.lift(o)
     if o is NotImplemented:
       return NotImplemented
@@ -422,9 +458,13 @@ def sqrt(x):
   neg = z3.And(z3.Not(x.nan), x.val < 0)
   if c.decide(neg):
     return SV(z3.RealVal(0), z3.BoolVal(True))
-  r = _SQRT(x.val)
-  c.assume(z3.Implies(x.val >= 0, z3.And(r >= 0, r * r == x.val)))
-  return SV(r, x.nan)
+  key = z3.simplify(x.val).sexpr()
+  cache = c.__dict__.setdefault('_sqrt_cache', {})
+  if key not in cache:
+    r = z3.Real(f'vf_sqrt_{len(cache)}')         # witness of the square root (pure NRA, no uninterpreted function)
+    cache[key] = r
+    c.assume(z3.Implies(x.val >= 0, z3.And(r >= 0, r * r == x.val)))
+  return SV(cache[key], x.nan)
 
 
 def log(x, base=None):
@@ -461,7 +501,14 @@ class SArr(_np.ndarray):
       return self
     if dtype in (bool, _np.bool_, 'bool'):
       return super().astype(dtype, *a, **k)
+    if any(isinstance(e, SBool) for e in self.ravel()):    # (mask).astype(int): 0/1 values, no fork
+      return _map(lambda e: e.sv() if isinstance(e, SBool) else e, self)
     return self
+
+  def __getitem__(self, key):
+    if isinstance(key, _np.ndarray) and key.dtype == object and key.size and all(isinstance(e, (SBool, bool, _np.bool_)) for e in key.ravel()):
+      key = _np.asarray([bool(e) for e in key.ravel()], dtype=bool).reshape(key.shape)   # boolean mask: one decision per element
+    return super().__getitem__(key)
 
 
 def _obj(x):
@@ -624,6 +671,53 @@ class NpFacade:
 
   absolute = abs
 
+  def logical_and(self, a, b):
+    if has_sym(a) or has_sym(b):
+      return _map(lambda x, y: lift_bool(x) & lift_bool(y), a, b)
+    return _np.logical_and(a, b)
+
+  def logical_or(self, a, b):
+    if has_sym(a) or has_sym(b):
+      return _map(lambda x, y: lift_bool(x) | lift_bool(y), a, b)
+    return _np.logical_or(a, b)
+
+  def logical_xor(self, a, b):
+    if has_sym(a) or has_sym(b):
+      return _map(lambda x, y: lift_bool(x) ^ lift_bool(y), a, b)
+    return _np.logical_xor(a, b)
+
+  def logical_not(self, a):
+    if has_sym(a):
+      return _map(lambda x: ~lift_bool(x), a)
+    return _np.logical_not(a)
+
+  def argsort(self, a, axis=-1, **kw):
+    if has_sym(a):
+      a = _obj(a)
+      if a.ndim != 1:
+        raise Unsupported('argsort of a symbolic array with ndim != 1')
+      import functools
+      def cmp(i, j):     # stable: ties keep index order; every comparison is a decision
+        if bool(SV.lift(a[i]) < a[j]):
+          return -1
+        if bool(SV.lift(a[j]) < a[i]):
+          return 1
+        return i - j
+      return _np.asarray(sorted(range(a.shape[0]), key=functools.cmp_to_key(cmp)))
+    return _np.argsort(a, axis=axis, **kw)
+
+  def concatenate(self, arrs, axis=0, **kw):
+    if any(has_sym(x) for x in arrs):
+      return _np.concatenate([_obj(x) for x in arrs], axis=axis).view(SArr)
+    return _np.concatenate(arrs, axis=axis, **kw)
+
+  def ones_like(self, a, dtype=None, **kw):
+    if has_sym(a):
+      out = _np.empty(_obj(a).shape, dtype=object)
+      out.fill(1.0)
+      return out.view(SArr)
+    return _np.ones_like(a, dtype=dtype, **kw)
+
   def sqrt(self, x):
     if has_sym(x):
       return _map(sqrt, x)
@@ -773,6 +867,8 @@ def patched(*modules):
   """Rebinds `np` / `math` in the given modules to the facades for the duration of the block."""
   saved = []
   fac, mfac = NpFacade(), MathFacade()
+  if getattr(Ctx.cur, 'concrete', False):      # concrete replay: the real numpy, nothing rebound
+    modules = ()
   for m in modules:
     for name, repl in (('np', fac), ('math', mfac)):
       if hasattr(m, name) and isinstance(getattr(m, name), _pytypes.ModuleType):
@@ -913,10 +1009,17 @@ def explore(scenario, max_paths=2000, timeout_s=600) -> PathResult:
           res.discharged += 1
           continue
         r = c.check(z3.Not(claim), want_model=True)
+        m = c.last_model
+        if r == z3.unknown:
+          r, m = c.prove(claim)
+        if r == z3.sat and getattr(c, 'prefer_int', None):
+          # counts: prefer an integer-valued witness when one exists (the claim was stated over the reals)
+          r2 = c.check(z3.Not(claim), *[z3.IsInt(v) for v in c.prefer_int], want_model=True)
+          if r2 == z3.sat:
+            m = c.last_model
         if r == z3.unsat:
           res.discharged += 1
         elif r == z3.sat:
-          m = c.last_model
           vals = {}
           for vn, v in c.vars:
             ev = m.eval(v, model_completion=True)
